@@ -490,6 +490,34 @@ theorem C14_prose_verbatim (cfg : Document.Cfg) (hpar : .paragraph ∈ cfg.block
   refine ⟨_, h1, ?_⟩
   rw [h2 o, escape_plain _ _ _ hp]
 
+/-- **From a `str`.**  `Document(text)` for the text `l₁ ++ … ++ lₙ` whose lines each end in "\n" and
+    contain no other line-boundary character (`oneLine`: what `str.splitlines(keepends=True)` keeps
+    together): `Document.__init__` recovers exactly the lines, so `C14_prose` applies. -/
+theorem C14_prose_text (cfg : Document.Cfg) (hpar : .paragraph ∈ cfg.block.types)
+    (ht : ∀ t ∈ cfg.span, inertClass t = true) (hc : cfg.span.count .lineBreak = 1)
+    (ls : List Str) (hne : ls ≠ []) (h1 : ∀ l ∈ ls, oneLine l = true)
+    (hl : ∀ l ∈ ls, inertLine l = true ∧ proseLine l = true)
+    (hi : inertBody (Document.joinNl (ls.map strip)) = true) (gas : Nat) :
+    Document.parse cfg (gas + (cfg.block.types.length + 4)) ls.flatten =
+        .ok { kids := [.paragraph (proseInlines (ls.map strip)) 1], footnotes := [] } ∧
+    ∀ o : Opts, render o { kids := [.paragraph (proseInlines (ls.map strip)) 1], footnotes := [] } =
+        "<p>".toList ++ escapeHtmlText o.dq o.sq (Document.joinNl (ls.map strip)) ++ "</p>\n".toList := by
+  rw [parse_lines cfg _ ls h1]
+  exact C14_prose cfg hpar ht hc ls hne hl hi gas
+
+/-- the one-line version: `Document(l)` for a `str` that is one "\n"-terminated line -/
+theorem C14_prose_line_text (cfg : Document.Cfg) (hpar : .paragraph ∈ cfg.block.types)
+    (ht : ∀ t ∈ cfg.span, inertClass t = true) (l : Str) (h1 : oneLine l = true) (hl : inertLine l = true)
+    (hi : inertText (strip l) = true) (gas : Nat) :
+    Document.parse cfg (gas + (cfg.block.types.length + 4)) l =
+        .ok { kids := [.paragraph [.rawText (strip l)] 1], footnotes := [] } ∧
+    ∀ o : Opts, render o { kids := [.paragraph [.rawText (strip l)] 1], footnotes := [] } =
+        "<p>".toList ++ escapeHtmlText o.dq o.sq (strip l) ++ "</p>\n".toList := by
+  have := parse_lines cfg (gas + (cfg.block.types.length + 4)) [l] (by simpa using h1)
+  simp only [List.flatten_cons, List.flatten_nil, List.append_nil] at this
+  rw [this]
+  exact C14_prose_line cfg hpar ht l hl hi gas
+
 /-! ### Non-vacuity (inline half and end to end) -/
 
 example : inertText (L "a_b_c * d - 3.14) x | y # z") = true := by decide +kernel
@@ -551,5 +579,13 @@ example : (Document.parseLines cfgHtml 14 [L "a \n", L "b\n"]).bind (fun d => .o
 example : Document.parseLines cfgHtml 14 [L "   (see p. 3) a_b * c\n"] =
     .ok { kids := [.paragraph [.rawText (L "(see p. 3) a_b * c")] 1], footnotes := [] } :=
   (C14_prose_line cfgHtml (by decide) htmlSpanTypes_inert (L "   (see p. 3) a_b * c\n") (by decide +kernel) (by decide +kernel) 0).1
+
+/-- from the text as one `str` (instance of `C14_prose_text`) -/
+example : Document.parse cfgHtml 14 (L "  a_b_c * d - 3.14) x | y # z\n1.5 is + or - = ~ ^ $ % @ [ & AT&T\nc < d <, \"e\"! ![ x\n") =
+    .ok { kids := [.paragraph [.rawText (L "a_b_c * d - 3.14) x | y # z"), .lineBreak [] true,
+                               .rawText (L "1.5 is + or - = ~ ^ $ % @ [ & AT&T"), .lineBreak [] true,
+                               .rawText (L "c < d <, \"e\"! ![ x")] 1], footnotes := [] } :=
+  (C14_prose_text cfgHtml (by decide) htmlSpanTypes_inert (by decide) prose (by decide) (by decide +kernel)
+    prose_lines_ok prose_text_ok 0).1
 
 end Mistletoe.Props.C14
